@@ -213,7 +213,7 @@ def coq_obligations(pid, extra_files=()):
             if b.startswith("Closed under"):
                 res.append({"name": name, "status": "closed", "axioms": []})
             else:
-                ax = re.findall(r"^([A-Za-z0-9_'.]+)\s*:", b, flags=re.M)
+                ax = [a for a in re.findall(r"^([A-Za-z0-9_'.]+)\s*:", b, flags=re.M) if a != "Axioms"]
                 ok = all(a in ALLOWED_AXIOMS or a.split(".")[-1] in ALLOWED_AXIOMS for a in ax)
                 axioms.update(ax)
                 res.append({"name": name, "status": "closed-modulo-stdlib-axioms" if ok else "foreign-axiom", "axioms": ax})
